@@ -45,6 +45,15 @@ func genCfg(r *Run, odd bool, i int) hCfg {
 		c.Access, c.AccHeader = true, c.IDHeader
 	}
 	c.Debug = rng.Intn(3) == 0
+	if rng.Intn(4) == 0 {
+		// the provider is discovered (configuration_uri): authorization, token and end-session endpoints come from its document
+		c.Disc = &discCfg{Path: newDiscPath(), Auth: pick(rng, []string{"https://idp.example.com/discovered/authorize", "https://idp.example.com/d/auth?tenant=acme"}),
+			EndSession: pick(rng, []string{"https://idp.example.com/discovered/end-session", "https://idp.example.com/end?x=1&y=2"}),
+			Methods:    pick(rng, [][]string{nil, {"S256"}, {"plain", "S256"}, {"S256", "plain"}, {"plain"}})}
+		if c.Logout && rng.Intn(2) == 0 {
+			c.LogoutURI = "" // take the discovered end-session endpoint
+		}
+	}
 	if rng.Intn(3) == 0 {
 		// the real key source (DefaultJWKSProvider) on the filter's own configuration: inline JWKS or a fetched one
 		c.RealKeys = pick(rng, []string{"static", "fetcher"})
